@@ -1,11 +1,13 @@
 package c06
 
 import (
+	"context"
 	"encoding/binary"
 	"fmt"
 	"testing"
 	"time"
 
+	dtls "github.com/pion/dtls/v3"
 	"github.com/pion/dtls/v3/internal/zzverif/lib/pbt"
 	"github.com/pion/dtls/v3/internal/zzverif/lib/scen"
 	"pgregory.net/rapid"
@@ -31,6 +33,11 @@ type Case struct {
 type Round struct {
 	N   int   `json:"n"`
 	Seq []int `json:"seq"`
+	// Update: the sender updates its traffic keys (DTLS 1.3) before writing this round's records.
+	Update bool `json:"upd,omitempty"`
+	// Old: after this round's arrivals, datagrams already read in EARLIER rounds (possibly under
+	// an earlier epoch) arrive again; indexes into the list of all datagrams read so far.
+	Old []int `json:"old,omitempty"`
 }
 
 func eps(v string, w int, fromSrv bool) (c, s scen.EP) {
@@ -87,7 +94,20 @@ func run(c Case, r *pbt.R) {
 		scen.Settle()
 		W := effWindow(c.Window)
 		tag := uint32(0)
+		var readBefore [][]byte // datagrams whose payload was read in an earlier round
 		for ri, rd := range c.Rounds {
+			if rd.Update && c.Variant == "v13" {
+				ctx, cancel := context.WithTimeout(context.Background(), time.Minute)
+				err := snd.Conn.UpdateKeys(ctx, dtls.KeyUpdateOptions{})
+				cancel()
+				scen.Settle()
+				if err != nil {
+					r.Failf("C06|harness|update", "UpdateKeys on a perfect network: %v", err)
+
+					return
+				}
+				r.Class("key-update-between-rounds")
+			}
 			// capture N fresh records
 			p.Net.Blocked[snd.Name] = true
 			mark := len(p.Net.Events())
@@ -160,6 +180,15 @@ func run(c Case, r *pbt.R) {
 					}
 				}
 			}
+			// late duplicates of datagrams read in earlier rounds (earlier epoch after a key update)
+			for _, o := range rd.Old {
+				if len(readBefore) == 0 {
+					break
+				}
+				p.Net.Inject(snd.Name, rcv.Name, readBefore[o%len(readBefore)])
+				scen.Settle()
+				r.Class("old-round-replay")
+			}
 			got := rcv.ReadLog()[base:]
 			count := make([]int, rd.N)
 			for _, g := range got {
@@ -171,7 +200,11 @@ func run(c Case, r *pbt.R) {
 				gi := int(binary.BigEndian.Uint32(g[8:]))
 				gt := binary.BigEndian.Uint32(g[4:])
 				if gi < 0 || gi >= rd.N || gt != tag-uint32(rd.N)+uint32(gi)+1 { //nolint:gosec
-					r.Failf("C06|stale-payload", "round %d: payload of an earlier round delivered: %x", ri, g)
+					if len(rd.Old) > 0 {
+						r.Failf("C06|delivered-twice|old-epoch-replay", "round %d (%s, update=%v): a datagram already read in an earlier round was read again when it arrived a second time: %x", ri, c.Variant, rd.Update, g)
+					} else {
+						r.Failf("C06|stale-payload", "round %d: payload of an earlier round delivered: %x", ri, g)
+					}
 
 					return
 				}
@@ -189,11 +222,16 @@ func run(c Case, r *pbt.R) {
 					return
 				}
 			}
+			for i := range count {
+				if count[i] == 1 {
+					readBefore = append(readBefore, recs[i])
+				}
+			}
 			cls := []string{c.Variant, fmt.Sprintf("W=%d", W)}
 			if edge {
 				cls = append(cls, "window-edge")
 			}
-			r.Eval(fmt.Sprintf("%s|%d|%v|%d|%v", c.Variant, W, c.FromSrv, rd.N, rd.Seq), hasRep && hasOOO, cls...)
+			r.Eval(fmt.Sprintf("%s|%d|%v|%d|%v|%v|%v", c.Variant, W, c.FromSrv, rd.N, rd.Seq, rd.Update, rd.Old), hasRep && hasOOO, cls...)
 		}
 	})
 	if berr != nil {
@@ -275,7 +313,12 @@ func gen(t *rapid.T) Case {
 	}
 	nr := rapid.IntRange(1, 4).Draw(t, "rounds")
 	for i := 0; i < nr; i++ {
-		c.Rounds = append(c.Rounds, genRound(t, c.Window))
+		rd := genRound(t, c.Window)
+		if i > 0 && rapid.IntRange(0, 2).Draw(t, "old") == 0 {
+			rd.Update = rapid.Bool().Draw(t, "update")
+			rd.Old = rapid.SliceOfN(rapid.IntRange(0, 200), 1, 6).Draw(t, "oldidx")
+		}
+		c.Rounds = append(c.Rounds, rd)
 	}
 
 	return c
